@@ -30,6 +30,9 @@ def cases(tier):
     C.append(("Exponential/Exp", tfd.Exponential, dict(rate=1.5), ("instance", lambda: tfb.Exp()), 0.7, ["var"]))
     C.append(("Uniform/default(parameter-dependent Sigmoid)", tfd.Uniform, dict(low=-1.0, high=2.0), ("default",), 0.5, ["var", "auto", "auto-input"]))
     C.append(("InverseGamma/default", tfd.InverseGamma, dict(concentration=2.0, scale=0.5), ("default",), 1.3, ["auto"]))
+    # a distribution on the whole real line: its default event-space bijector is the identity -- still a transformation like any other
+    # (new unconstrained variable with the density and the parameter flag, original without a distribution of its own)
+    C.append(("Normal/default(Identity)", tfd.Normal, dict(loc=0.5, scale=2.0), ("default",), 1.3, ["var", "auto"]))
     C.append(("HalfNormal/Exp", tfd.HalfNormal, dict(scale=1.5), ("instance", lambda: tfb.Exp()), 0.8, ["var"]))
     C.append(("Gamma vector (2,), per_obs=False / Exp", tfd.Gamma, dict(concentration=2.0, rate=0.5), ("instance", lambda: tfb.Exp()), (1.3, 0.6), ["var", "builder", "auto-default"]))
     if tier == "thorough":
